@@ -31,9 +31,46 @@ def build_matrix_rows(ctx, it=None):
     q = RES + "_build_matrix"
     ctx.touch(q)
     it = it or interp(ctx)
-    paths = returns(it.run_function(q, args={"kt_h2": lambda: Vec(k_atom(nf.sym(J)), N)}))
+    fi = ctx.P.func(q)
+    kvec = lambda: Vec(k_atom(nf.sym(J)), N)
+
+    def matrix_of(v):
+        v = normalise_matrix(v)
+        if isinstance(v, TupV):
+            # the helper hands back the matrix together with something else (a named pair, say)
+            ms = [normalise_matrix(x) for x in v.items]
+            ms = [x for x in ms if isinstance(x, ExtObj) and x.qual == "scipy.sparse.diags"]
+            if len(ms) == 1:
+                return ms[0]
+        return v
+
+    params = [p_ for p_ in fi.params + fi.kwonly if p_ not in fi.defaults()]
+    if params == ["kt_h2"] or "kt_h2" in params:
+        paths = returns(it.run_function(q, args={"kt_h2": kvec}))
+    else:
+        # a private helper: its parameters are its own business.  The statement is about the matrix it assembles for a
+        # coefficient vector k; with one parameter carrying a generic vector and the scalar ones at 1 the product it
+        # forms inside is k (which k a simulate hands it is decided on the assembled step, C04-b / the solved-matrix clause)
+        runs = []
+        for cand in params:
+            try:
+                ps = returns(it.run_function(q, args={p_: (kvec if p_ == cand else (lambda: Num(nf.ONE))) for p_ in params}))
+            except (AnalysisError, nf.NFError):
+                continue
+            for p_ in ps:
+                p_.value = matrix_of(p_.value)
+            if ps and all(isinstance(p_.value, ExtObj) and p_.value.qual == "scipy.sparse.diags" for p_ in ps):
+                try:
+                    sig = [{lab: {k: nf.key(v) for k, v in row.items()} for lab, row in rows_of(p_.value, N).items()} for p_ in ps]
+                except AnalysisError:
+                    continue
+                if any("k(" in nf.show(v_, 400) for p_ in ps for row in rows_of(p_.value, N).values() for v_ in row.values()):
+                    runs.append((sig, ps))
+        if not runs or any(r[0] != runs[0][0] for r in runs[1:]):
+            raise AnalysisError("_build_matrix: no reading of its parameters as (coefficient vector, scalars) gives one tridiagonal assembly")
+        paths = runs[0][1]
     for p_ in paths:
-        p_.value = normalise_matrix(p_.value)
+        p_.value = matrix_of(p_.value)
     if len(paths) == 1:
         if not isinstance(paths[0].value, ExtObj) or paths[0].value.qual != "scipy.sparse.diags":
             raise AnalysisError("_build_matrix does not return a scipy.sparse.diags matrix on a single path")
@@ -209,12 +246,58 @@ def dia_as_diags(A):
     return ExtObj("scipy.sparse.diags", {"diagonals": TupV(diagonals), "offsets": TupV([Num(nf.const(d)) for d in offsets])}, A.node)
 
 
+def _segments(v):
+    """the pieces of np.concatenate([...]) / np.hstack([...]) of vectors, or the vector itself"""
+    if isinstance(v, Vec):
+        return [v]
+    if isinstance(v, ExtObj) and v.qual in ("numpy.concatenate", "numpy.hstack", "numpy.r_"):
+        seq = v.args.get("0") or v.args.get("arrays") or v.args.get("tup")
+        if isinstance(seq, TupV) and all(isinstance(x, Vec) for x in seq.items) and not (set(v.args) - {"0", "arrays", "tup"}):
+            return list(seq.items)
+    return None
+
+
+def coo_as_diags(A):
+    """coo_matrix((data, (rows, cols)), shape=(n, n)) assembled from triplets, as the diags(...) it is when the triplets
+    come band by band: segment s of `rows` / `cols` counts r0 + j / c0 + j (slices of one np.arange) and runs over the
+    whole diagonal c0 - r0 (min(r0, c0) == 0, n - |c0 - r0| entries), segment s of `data` holds that diagonal.  Triplets
+    at the same place add up, as do diagonals given twice."""
+    a1 = A.args.get("arg1") or A.args.get("0")
+    shape = A.args.get("shape")
+    if not (isinstance(a1, TupV) and len(a1.items) == 2 and isinstance(a1.items[1], TupV) and len(a1.items[1].items) == 2):
+        return None
+    if not (isinstance(shape, TupV) and len(shape.items) == 2 and all(isinstance(x, Num) for x in shape.items) and nf.equal(shape.items[0].nf, shape.items[1].nf)):
+        return None
+    n = shape.items[0].nf
+    data, rows, cols = _segments(a1.items[0]), _segments(a1.items[1].items[0]), _segments(a1.items[1].items[1])
+    if not data or not rows or not cols or not (len(data) == len(rows) == len(cols)):
+        return None
+    j = nf.sym(J)
+    diagonals, offsets = [], []
+    for d_, r_, c_ in zip(data, rows, cols):
+        if r_.over or c_.over or not (nf.equal(d_.length, r_.length) and nf.equal(d_.length, c_.length)):
+            return None
+        r0, c0 = nf.as_int(nf.sub(r_.gen, j)), nf.as_int(nf.sub(c_.gen, j))
+        if r0 is None or c0 is None or min(r0, c0) != 0:
+            return None
+        off = c0 - r0
+        if not nf.equal(d_.length, nf.sub(n, nf.const(abs(off)))):
+            return None
+        diagonals.append(d_)
+        offsets.append(off)
+    return ExtObj("scipy.sparse.diags", {"diagonals": TupV(diagonals), "offsets": TupV([Num(nf.const(d)) for d in offsets])}, A.node)
+
+
 def normalise_matrix(A):
     """strip format conversions; read DIA storage back as diags"""
     while isinstance(A, ExtObj) and "recv" in A.args and A.qual.rsplit(".", 1)[-1] in CONVERSIONS:
         A = A.args["recv"]
     if isinstance(A, ExtObj) and A.qual in ("scipy.sparse.dia_matrix", "scipy.sparse.dia_array"):
         B = dia_as_diags(A)
+        if B is not None:
+            return B
+    if isinstance(A, ExtObj) and A.qual in ("scipy.sparse.coo_matrix", "scipy.sparse.coo_array", "scipy.sparse.csr_matrix", "scipy.sparse.csc_matrix", "scipy.sparse.csr_array", "scipy.sparse.csc_array"):
+        B = coo_as_diags(A)
         if B is not None:
             return B
     if isinstance(A, ExtObj) and A.qual == "scipy.sparse.spdiags":
